@@ -353,8 +353,8 @@ def r6(ctx):
 
 # sites that classify rows by the number of control columns: (function, variable or 'return', required class)
 ROW_CLASS_SITES = [
-    ("data.create_single_treatment_effect_map", "single_treatment_mask", "single", "treatment_ids"),
-    ("synergy.calculate_synergy", "single_treatment_mask", "single", "treatment_ids"),
+    ("data.create_single_treatment_effect_map", "<rows of the single-agent table>", "single", "treatment_ids"),
+    ("synergy.calculate_synergy", "<rows excluded from the synergy table>", "single", "treatment_ids"),
     ("retrospective.PairwisePlateGenerator._generate_plates", "combo_mask", "combo", "screen.treatment_ids"),
     ("data.filter_dataset_to_treatments_that_appear_in_at_least_one_combo", "<rows whose treatments are kept>", "combo", "treatment_ids"),
     ("models.sparse_combo_interaction.SparseDrugComboInteraction._add_observations", "<ingested rows>", "combo", "data.treatment_ids"),
@@ -497,6 +497,25 @@ def r7(ctx, rule="R7", sites=ROW_CLASS_SITES):
                 e = e.value.args[0]
             cls = control_count_class(e, ids)
             var = f"rows fed to _update [{sel}]"
+        elif var in ("<rows of the single-agent table>", "<rows excluded from the synergy table>"):
+            # the selector applied to the observation column (third parameter): obs[SEL] ; for the synergy table the
+            # single-agent rows are the complement of the selected rows
+            obs_p = f.params[2]
+            fenv = single_defs(f.node)
+            sels = []
+            for x in walk_own(f.node):
+                if isinstance(x, ast.Subscript) and U(x.value) == obs_p and isinstance(x.ctx, ast.Load) and not isinstance(x.slice, (ast.Slice, ast.Tuple, ast.Constant)):
+                    sels.append(x.slice)
+            texts = {U(inline(x, fenv)) for x in sels}
+            ctx.need(len(texts) == 1, f"{f.site()}: the row selection applied to `{obs_p}` was not found (or is not unique)")
+            e = inline(sels[0], fenv)
+            if var == "<rows excluded from the synergy table>":
+                if isinstance(e, ast.UnaryOp) and isinstance(e.op, ast.Invert):
+                    e = e.operand
+                else:
+                    e = ast.UnaryOp(op=ast.Invert(), operand=e)
+            cls = control_count_class(e, ids)
+            var = f"{var[1:-1]} [{U(sels[0])}]"
         elif var == "<rows whose treatments are kept>":
             # np.unique(<ids>[ROWS] ...): the rows whose treatment ids form the kept set
             sub = []
